@@ -18,6 +18,7 @@ func init() {
 			c.Clause("C01-D1/D2")
 			ruleInvokeSites(c, d)
 			ruleNumToDo(c, d)
+			ruleCountdownAgrees(c, d)
 			c.Clause("C01-D3")
 			ruleDeliverAfterJoin(c, d)
 			c.Clause("C01-D4")
